@@ -402,7 +402,8 @@ def _symmetric_matrix_function_jvp_helper(func, relative_difference, primals, ta
 @jax.custom_jvp
 def sqrt_symm(A):
     """Square root of a symmetric positive semi-definite tensor."""
-    return symmetric_matrix_function(A, Math.safe_sqrt)
+    # a zero eigenvalue can come out of the eigen-solver as -eps*|A|; clamp so that PSD input never gives NaN
+    return symmetric_matrix_function(A, lambda x: Math.safe_sqrt(np.maximum(x, 0.0)))
 
 def _sqrt_relative_difference(lam1, lam2):
     return 1/(np.sqrt(lam1) + np.sqrt(lam2))
